@@ -58,7 +58,18 @@ def session(sess, suite, n, t, kind):
         sess.oracle(not v0.ok, "randomized signature verifies under the original group key", rp())
     # tampering between coordinator and one participant: seed bit / one commitment
     victim = rng.choice(signers)
-    for what in ("seed", "commitment", "hiding commitment only", "binding commitment only", "attribution of one commitment pair"):
+    for what in ("seed", "commitment", "hiding commitment only", "binding commitment only", "attribution of one commitment pair", "tail of a longer seed"):
+        if what.startswith("tail"):
+            # a caller-supplied seed LONGER than a scalar encoding: every byte of it counts, also those past the first Ns
+            long1 = seed + rng.randbytes(16).hex()
+            b = bytearray.fromhex(long1)
+            b[fld.n + rng.randrange(16)] ^= 1 << rng.randrange(8)
+            g1 = sess.call("randomizer %s seed=%s comms=%s" % (suite, long1, comms), EXACT, "randomizer-long")
+            g2 = sess.call("randomizer %s seed=%s comms=%s" % (suite, b.hex(), comms), EXACT, "randomizer-long")
+            if real:
+                sess.oracle(g1.ok and g2.ok and g1["r"] != g2["r"] and g1["r"] != rand, "changing a byte in the tail of a seed longer than a scalar encoding (or appending to the seed) does not change the randomizer", rp())
+            sess.case("tamper|%s|%s|%s|%s" % (suite, what, comms, long1), nontrivial=True)
+            continue
         if what.startswith("attribution"):
             # the same commitment values, in the same order, but the last pair filed under another identifier
             top = max(signers, key=lambda h: fld.dec(h))
